@@ -424,6 +424,8 @@ void WorldQ::on_send_event(const Event &e) {
         auto count_heads = [&](const std::string &h) { size_t n = 0; for (size_t pos = bd.find(h); pos != std::string::npos; pos = bd.find(h, pos + 1)) if (pos == 0 || bd[pos - 1] == '\n' || had_lossy_crash) n++; return n; };   // (after a crash that lost unsynced data the record may hold garbage in front of a note: bounce/n is documented as not crash-proof)
         for (auto &x : m->rc) if (!x.marked && !x.noted && (x.last_verdict == 'D' || x.last_verdict == 'Z')) {
           std::string h = head_of(x); size_t have = count_heads(h), already = 0; for (auto &y : m->rc) if (&y != &x && y.noted && head_of(y) == h) already++;
+          // (a name written without the virtual-domain prepend stripped is still this recipient's note - a wrong one, which the check of the queued bounce will say)
+          if (have <= already) { std::string raw = x.addr; for (auto &c : raw) if (c == '\n') c = '_'; raw = "<" + raw + ">:\n"; if (raw != h) { have = count_heads(raw); already = 0; for (auto &y : m->rc) if (&y != &x && y.noted && y.addr == x.addr) already++; } }
           if (have > already) { x.noted = true; x.note_seq = ++note_counter; k->probe("bounce_note"); }
         }
       }
